@@ -248,7 +248,7 @@ func genTemplateProgram(t *rapid.T, allowErr bool) *tplProg {
 	}
 	w := func(format string, args ...interface{}) { fmt.Fprintf(&tp.src, format, args...) }
 	for b := 1; b <= n; b++ {
-		kind := []string{"strconst", "strconst", "closure", "closure", "module", "module", "stdlib", "mutinput", "mutinput", "literals", "hostmod", "loop", "mutimm", "mutimm", "format", "format"}[rapid.IntRange(0, 15).Draw(t, "block")]
+		kind := []string{"strconst", "strconst", "closure", "closure", "module", "module", "stdlib", "mutinput", "mutinput", "literals", "hostmod", "loop", "mutimm", "mutimm", "format", "format", "appendin", "appendin"}[rapid.IntRange(0, 17).Draw(t, "block")]
 		if singleFile && kind == "module" {
 			kind = "closure"
 		}
@@ -314,6 +314,10 @@ func genTemplateProgram(t *rapid.T, allowErr bool) *tplProg {
 			if !openFindings[f12] {
 				w("nc%[1]d := hm%[1]d.name[0]\n", b)
 			}
+		case "appendin":
+			// in6 arrives empty (with room to grow, see toObject) and is
+			// usually inherited through Clone rather than Set per clone
+			w("in6 = append(in6, in0 + %[2]d)\nin6 = append(in6, in1)\nai%[1]d := [len(in6), in6[0], in6]\n", b, rapid.IntRange(0, 3).Draw(t, "tplAppend"))
 		case "format":
 			// the formatter keeps its printers in a pool shared by every VM
 			w("fm%[1]d := format(\"%%0%[2]dd|%%s|%%v|%%x\", in0, in1, in2, in0)\nfq%[1]d := format(\"%%q %%5.2f %%-8v|\", in1, 2.5, in3.a)\n", b, rapid.IntRange(3, 30).Draw(t, "tplWidth"))
@@ -372,6 +376,7 @@ func tplInputs(t *rapid.T, ill bool) map[string]*lang.Val {
 	out["in4"] = &lang.Val{T: "imm-map", Share: 4, Keys: []string{"lim", "tags"}, Kids: []*lang.Val{
 		{T: "map", Share: 5, Keys: []string{"n"}, Kids: []*lang.Val{vInt(int64(rapid.IntRange(0, 5).Draw(t, "in4n")))}},
 		{T: "array", Share: 6, Kids: []*lang.Val{vStr("t0"), vStr("t1")}}}}
+	out["in6"] = &lang.Val{T: "array", Share: 9}
 	out["in5"] = &lang.Val{T: "imm-array", Share: 7, Kids: []*lang.Val{vInt(1),
 		{T: "array", Share: 8, Kids: []*lang.Val{vInt(int64(rapid.IntRange(0, 5).Draw(t, "in5n")))}}}}
 	if !ill {
